@@ -8,8 +8,19 @@ META = dict(
 )
 
 
+def build_driver_lib(ctx):
+    """The line-protocol driver imports executable-only modules that no Props module imports; make sure their
+    .olean files are current (lean --run does not rebuild imports)."""
+    import verif
+    mods = "PocketModel.Store.Sha256 PocketModel.Basic.Proto".split()
+    rc, out = verif.sh(["lake", "build"] + mods, cwd=verif.LEAN, timeout=3000)
+    if rc != 0:
+        ctx.fail("build", "driver-lib", "lake build %s failed:\n%s" % (" ".join(mods), out[-1200:]))
+
+
 def run(ctx):
     ctx.lean_proofs("Props.C06")
+    build_driver_lib(ctx)
     ctx.rule("c06: per history 1-4 IAVL substores and 0-2 transient substores (names sharing prefixes), 1-6 blocks of 0-8 writes "
              "(1/3 transient, 1/4 deletes) over a colliding key alphabet; per block the persistent writes go directly, through CacheMultiStore()+Write() or through a nested cache wrap (same route in all twins), the transient writes by a route drawn per run and block, and a never-written-back cache wrap is filled with junk in 1/3 of the blocks; after every commit every transient key written in the block is read back (directly and through a fresh cache wrap) and the store is iterated; 5 twin runs: full / transient writes removed / no transient "
              "store mounted / reversed mount order + extra transient writes / one extra persistent write in a random block; "
